@@ -502,6 +502,10 @@ def scripted_inflight(prior, when, arrival):
         viol.extend(w.viol)
     if arrival == "late":
         w.loop._vtime += 0.3      # (still before the first acknowledgement timeout)
+    if arrival == "ack-then-rstack":
+        # the NCP's ACK for the outstanding frame and its RSTACK are read in the same loop iteration, the ACK first
+        # (the sender of that frame resumes only after both callbacks have run)
+        w.io_frame(ref_ash.enc_ack(w.ref_tx), "ack")
     w._deliver("rstack", SW)
     w._run_batch(False)
     viol.extend(w.viol)
@@ -547,7 +551,7 @@ def part1(tier, rep):
                                                            "prior": list(prior), "workload": workload})
     for prior in ([(i, j) for i in range(8) for j in range(8)] if tier != "quick" else [(i, (3 * i + 1) % 8) for i in range(8)] + [(0, 0), (7, 7)]):
         for when in ("before", "after"):
-            for arrival in ("at_once", "late"):
+            for arrival in ("at_once", "late", "ack-then-rstack"):
                 viol, sig = scripted_inflight(prior, when, arrival)
                 n += 1
                 sigs.add(("inflight", when, arrival, prior[0] == 0, sig))
